@@ -341,7 +341,70 @@ def search_gate(seed=0, budget=0):
         why = sc()
         if why:
             return ("deco", k), why, n
+    # QuantityVector construction
+    for key in qvector_keys():
+        n += 1
+        why = check_qvector(key)
+        if why:
+            return ("qvec",) + key, why, n
     return None, None, n
+
+
+def _qvector_pool():
+    u = _units()
+    from symplyphysics import Quantity
+    return [Quantity(2 * u.meter), Quantity(3 * u.second), Quantity(0 * u.second), Quantity(0.5 * u.radian), Quantity(4), 5, 0, Quantity(7 * u.meter / u.second)]
+
+
+def qvector_keys():
+    import itertools
+    npool = len(_qvector_pool())
+    for n in (1, 2, 3):
+        for idxs in itertools.product(range(npool), repeat=n):
+            if n == 3 and len(set(idxs)) == 3 and idxs[0] > 3:
+                continue  # keep the enumeration small
+            for system in (0, 1, 2):
+                for dim in (None, "length", "time", "dimensionless"):
+                    yield (idxs, system, dim)
+
+
+def check_qvector(key):
+    """contract (C04): QuantityVector(components, system, dimension=d) is refused iff some component -- a ready-made Quantity with
+    its OWN dimension, a bare number as a quantity of dimension d (dimensionless if d is omitted) -- fails the gate against the
+    vector dimension (d, or the dimension of the first component with a non-zero scale factor), angle slots against angle"""
+    u = _units()
+    from symplyphysics import Quantity, QuantityVector
+    from symplyphysics.core.coordinate_systems.coordinate_systems import CoordinateSystem
+    from symplyphysics.core.dimensions import dimensionless
+    from sympy.physics.units.definitions.dimension_definitions import angle as angle_dim
+    idxs, system, dimkey = key
+    pool = _qvector_pool()
+    comps = [pool[i] for i in idxs]
+    dim = {None: None, "length": u.length, "time": u.time, "dimensionless": dimensionless}[dimkey]
+    cs = CoordinateSystem([CoordinateSystem.System.CARTESIAN, CoordinateSystem.System.CYLINDRICAL, CoordinateSystem.System.SPHERICAL][system])
+    qs = [c if isinstance(c, Quantity) else Quantity(c, dimension=dim) for c in comps]
+    vdim = dim
+    if vdim is None:
+        vdim = dimensionless
+        for q in qs:
+            if q.scale_factor != 0:
+                vdim = q.dimension
+                break
+    expect = "ok"
+    for i, q in enumerate(qs):
+        is_angle = (system == 1 and i == 1) or (system == 2 and i in (1, 2))
+        r = ref_gate(q, angle_dim if is_angle else vdim)
+        if r != "ok":
+            expect = r
+            break
+    try:
+        QuantityVector(comps, cs, dimension=dim)
+        got = "ok"
+    except Exception as e:  # noqa
+        got = type(e).__name__
+    if got != expect:
+        return f"QuantityVector({comps}, system={system}, dimension={dimkey}): real={got}, contract={expect}"
+    return None
 
 
 def decorator_scenarios():
@@ -437,6 +500,8 @@ def decorator_scenarios():
 def replay_gate(key):
     if key[0] == "deco":
         why = decorator_scenarios()[key[1]]()
+    elif key[0] == "qvec":
+        why = check_qvector(tuple(key[1:]))
     else:
         args, exps = gate_pool()
         why = check_gate(args[key[0]], exps[key[1]])
@@ -539,6 +604,14 @@ def search_convert(seed=0, budget=0):
             why = f"evaluate_expression check crashed: {type(e).__name__}: {e}"
         if why:
             return ("evaluate", i), why, n
+    for i in range(len(float_pool())):
+        n += 1
+        try:
+            why = check_float(i)
+        except Exception as e:
+            why = f"convert_to_float check crashed: {type(e).__name__}: {e}"
+        if why:
+            return ("float", i), why, n
     m = len(convert_pool())
     for i in range(m):
         for j in range(m):
@@ -552,8 +625,43 @@ def search_convert(seed=0, budget=0):
     return None, None, n
 
 
+def float_pool():
+    u = _units()
+    from symplyphysics import Quantity
+    I = sp.I
+    return [Quantity(5), Quantity(-2.5), Quantity(sp.Rational(7, 3)), Quantity(0), Quantity(3 * u.kilometer) / Quantity(2 * u.meter), Quantity(u.degree),
+            Quantity((3 + 4 * I) * u.ohm) / Quantity(u.ohm), Quantity(sp.sqrt(-4)), Quantity(-2.5 * I), Quantity(2 + sp.Float("1e-30") * I), Quantity(sp.oo), Quantity(-sp.oo),
+            Quantity(3 * u.meter), Quantity(2 * u.second / u.meter), Quantity(0 * u.meter), Quantity(sp.pi), Quantity(1 + 0 * I)]
+
+
+def check_float(i):
+    """contract (C07): convert_to_float(q) returns the float n with n * 1 == q for a dimensionless q with a real scale factor;
+    a dimensional q is refused (UnitsError); a dimensionless q whose scale factor is not real has no such float (TypeError)"""
+    import math
+    from symplyphysics.core.convert import convert_to_float
+    q = float_pool()[i]
+    s, d = ref_collect_quantity(q)
+    dimless = is_any_value(s) or not {k: v for k, v in d.items() if k != "angle" and v != 0}
+    try:
+        got = convert_to_float(q)
+        exc = None
+    except Exception as e:  # noqa
+        got, exc = None, type(e).__name__
+    if not dimless:
+        return None if exc is not None else f"convert_to_float({q.scale_factor} [{q.dimension}]) returned {got!r} for a dimensional quantity"
+    sv = sp.sympify(s)
+    if sv.is_real or sv in (sp.oo, -sp.oo):
+        if exc is not None:
+            return f"convert_to_float({sv}) raised {exc} for a real dimensionless quantity"
+        ok = (math.isinf(got) and sv in (sp.oo, -sp.oo) and (got > 0) == (sv == sp.oo)) or (not math.isinf(got) and abs(got - float(sv)) <= 1e-12 * max(1.0, abs(float(sv))))
+        return None if ok else f"convert_to_float({sv}) returned {got!r}: n * 1 != value"
+    if exc is None:
+        return f"convert_to_float({sv}) returned {got!r} although the value is not real: n * 1 != value"
+    return None
+
+
 def replay_convert(key):
-    why = check_celsius(key[1]) if key[0] == "celsius" else check_evaluate(key[1]) if key[0] == "evaluate" else check_convert(*key)
+    why = check_celsius(key[1]) if key[0] == "celsius" else check_evaluate(key[1]) if key[0] == "evaluate" else check_float(key[1]) if key[0] == "float" else check_convert(*key)
     assert why is None, why
     print("contract holds on this input")
 
